@@ -192,8 +192,10 @@ def run(R, tier):
         if (tname, hb.name) in EXEMPT:
             continue
         n_h += 1
-        for esr, k in ((0x00, 0), (0x24, 2)):
-            dev = DM.Dev(esr=esr, ese=0x12, sre=0x34, queue=entries(k), regs=regs())
+        # (start ESR, queued entries, outcome of the device's self-test: passes / fails - a failing self-test is *answered* by
+        # *TST?, it is not an error of the message)
+        for esr, k, tst_fails in ((0x00, 0, False), (0x24, 2, False), (0x00, 1, True)):
+            dev = DM.Dev(esr=esr, ese=0x12, sre=0x34, queue=entries(k), regs=regs(), tst=(SymV("selftest-error", "selftest-error") if tst_fails else None))
             dev.params = [K(1), K(1)]
             try:
                 rs = DM.run(deng, hb, dev, DM.handler_args(event=(hb.name == "event")), extra={"only_register": "Operation"})
